@@ -8,11 +8,11 @@ BASE = json.loads(Path("/root/.vp/BASELINE.json").read_text()) if Path("/root/.v
 CHECKS = {
     "C10": dict(engine="rlsim", category="exploration", design="4/C10",
                 technique="deterministic simulation: baton-scheduled real threads, seeded schedule search with line-level pre-emption, protocol reference model",
-                text="Seeded search over thread schedules of the real RLScheduler/env/agent exchange (two real threads, one baton; pre-emption at every queue/thread operation and every line of black_it/schedulers) for generated session/batch/loss scenarios; oracle = reference protocol + bandit model (exactly one learn per executed agent-chosen batch, right action, right reward, empty queues and no thread after each session, no deadlock within a step budget, outcome identical across schedules). Sampling, not enumeration: a clean run is evidence, not proof.",
+                text="Seeded search over thread schedules of the real RLScheduler/env/agent exchange (two real threads, one baton; pre-emption at every queue/thread operation and every line of black_it/schedulers) for generated session/batch/loss scenarios; oracle = reference protocol + bandit model (exactly one learn per executed agent-chosen batch, right action, right reward, empty queues and no thread after each session, no deadlock within a step budget, outcome identical across schedules), for scenarios that include empty sessions, failing batches and zero losses. For 2% of the scenarios every schedule with at most two pre-emptions is enumerated. Otherwise sampling, not enumeration: a clean run is evidence, not proof.",
                 note="Queue/Thread stand-ins assumed faithful to queue.Queue/threading.Thread for the operations used; pre-emption is at line granularity; the calibration loop is played by the harness."),
     "C01": dict(engine="calsim", category="exploration", design="4/C01",
                 technique="deterministic simulation: twin executions of a real Calibrator under perturbed simulated environments (worker pool order/isolation, verbosity, folder, constructor seeds, ambient RNG, clock jumps, RL thread schedule), bitwise comparison",
-                text="Each generated configuration is executed in a baseline and in 1-3 perturbed simulated environments; histories, return values and the (theta, N, seed) sequence of model calls must be bit-identical, or both must raise the same exception type at the same point. Seeded sampling over configurations and perturbations.",
+                text="Each generated configuration is executed in a baseline and in 1-3 perturbed simulated environments (worker count with pickle isolation and seeded completion order, verbosity, folder, constructor seeds, ambient RNG, clock jumps, RL thread schedule, an unrelated calibration run first in the same process); histories, return values and the (theta, N, seed) sequence of model calls must be bit-identical, or both must raise the same exception type at the same point. 8% of the scenarios are also executed in a fresh interpreter under another PYTHONHASHSEED and about 1.5% on real joblib/loky worker processes. Seeded sampling over configurations and perturbations.",
                 note="joblib.Parallel is modelled by SimParallel (lazy dispatch, pickle isolation, seeded completion order), real loky is not run; another PYTHONHASHSEED only through the runner's fresh-interpreter probe."),
     "C02": dict(engine="calsim", category="exploration", design="4/C02",
                 technique="deterministic simulation: seam recordings (sampler returns, model dispatch/completion, loss evaluations) rebuilt into a reference history; append-only re-hash at every seam event",
@@ -52,8 +52,8 @@ CHECKS = {
                 note="Threads/queues are transient by design; fitted third-party models are compared by type; NaN payload bits are not considered observable."),
     "C05": dict(engine="calsim", category="fault_enumeration", design="4/C05",
                 technique="deterministic simulation with crash injection: every labelled cutting (plain second calibrate / crash+restore / crash inside the next batch+restore) of n batches enumerated for sampled configurations, bitwise comparison with the uninterrupted twin",
-                text="For sampled round-robin configurations over all nine samplers and all losses, all 4^(n-1) labelled cuttings of n <= 4 batches (5 in the thorough tier; 24 sampled cuttings for n up to 14) are executed with only the folder surviving a crash; the final history must be bit-identical to the uninterrupted run's.",
-                note="Restores are in-process (all references dropped, ambient state perturbed), not in a fresh interpreter; RL line-ups are outside the property's quantifier."),
+                text="For sampled configurations (round-robin over all nine samplers and all losses; RL with a greedy agent) all 4^(n-1) labelled cuttings of n <= 4 batches (5 in the thorough tier; 24 sampled cuttings for n up to 14) are executed with only the folder surviving a crash, plus cuttings whose continuation segments run in brand-new interpreters; the final history must be bit-identical to the uninterrupted run's.",
+                note="Most restores are in-process (all references dropped, ambient state perturbed); RL takes part with eps=0 only, because with eps>0 every cut makes the agent draw one more random number and equality across cuts is not defined."),
     "C18": dict(engine="calsim", category="exploration", design="4/C18",
                 technique="deterministic simulation: calibrate/set_samplers/set_scheduler/checkpoint/restore op histories with an id-table reference model; checkpoint read back by restore and by the plotting helper",
                 text="The sampler seam records which class produced every row; after every op the live id table must extend the reference table without renumbering and map every stored label to the producing class; every checkpoint the calibrator writes is restored (restored table must still map all stored labels) and passed to plot_results._get_samplers_names (names must be right for all ids present).",
@@ -64,7 +64,7 @@ CHECKS = {
                 note="Relative tolerance 1e-12 on estimates; loss sequences keep the reference best away from zero."),
     "C06": dict(engine="diskcrash", category="fault_enumeration", design="4/C06",
                 technique="deterministic fault injection: recorded write trace of a real save materialised at every operation prefix and byte step on top of the previous folder, each state given to the real restore; SQLite: exception before / process death after every call and inside every array adapter",
-                text="For sampled scenarios (previous folder: empty / earlier checkpoint of the same run / checkpoint of a different run) the next real save is recorded (order of file opens, final contents, every offset/bytes/truncate the HDF5 library issues) and EVERY crash point is materialised: after each operation and every 7th byte (thorough: every byte) inside each write; restore must fail or return exactly the previous or exactly the new checkpoint (deep bitwise comparison). SQLite: an exception before each call and in each array adapter must leave the previous checkpoint loadable; process death after each call must leave old or new.",
+                text="For sampled scenarios (previous folder: empty / earlier checkpoint of the same run / checkpoint of a different run) the next real save is recorded (order of file opens, final contents, every offset/bytes/truncate the HDF5 library issues) and EVERY crash point is materialised: after each operation and every 7th byte (thorough: every byte) inside each write; restore must fail or return exactly the previous or exactly the new checkpoint (deep bitwise comparison). An OSError is also raised from every fault point of a live save (each open/write/close, each HDF5 call) and the folder classified the same way; once the fault is over the next save may refuse loudly but, if it reports success, must restore exactly. SQLite: an exception before each call and in each array adapter must leave the previous checkpoint loadable; process death after each call must leave old or new; one scenario in eight uses a row larger than the page cache. One scenario per run is confirmed against real SIGKILLs (strace).",
                 note="Crash = process death (prefix of the operation sequence), not power loss; disk model validated on every run by replaying the trace and comparing all five files byte for byte; HDF5 and SQLite internals below their write calls are trusted."),
 }
 
